@@ -547,3 +547,58 @@ def unroll_literal_loops(trees: Dict[str, ast.Module], max_rows: int = 32) -> in
     for mod in touched:
         renumber(trees[mod])
     return done
+
+
+# ---------------------------------------------------------------------------
+# t = f(..); a = t[0]; b = t[1]      is read as      a, b = f(..)
+# ---------------------------------------------------------------------------
+def fold_unpack_temporaries(trees: Dict[str, ast.Module]) -> int:
+    """a call result held in a local that is used for nothing but being taken apart by consecutive constant subscripts 0..k-1
+    right after the call is the tuple assignment it stands for.  Returns the number of folds."""
+    done = 0
+
+    def fold(body, uses):
+        nonlocal done
+        out = []
+        i = 0
+        while i < len(body):
+            s = body[i]
+            for fld in ("body", "orelse", "finalbody"):
+                b = getattr(s, fld, None)
+                if isinstance(b, list) and b and isinstance(b[0], ast.stmt) and not isinstance(s, (ast.FunctionDef, ast.ClassDef)):
+                    setattr(s, fld, fold(b, uses))
+            for h in getattr(s, "handlers", []) or []:
+                h.body = fold(h.body, uses)
+            if isinstance(s, ast.Assign) and len(s.targets) == 1 and isinstance(s.targets[0], ast.Name) and isinstance(s.value, ast.Call):
+                t = s.targets[0].id
+                names = []
+                j = i + 1
+                while j < len(body):
+                    n = body[j]
+                    if (isinstance(n, ast.Assign) and len(n.targets) == 1 and isinstance(n.targets[0], ast.Name) and isinstance(n.value, ast.Subscript) and isinstance(n.value.value, ast.Name)
+                            and n.value.value.id == t and isinstance(n.value.slice, ast.Constant) and n.value.slice.value == len(names) and n.targets[0].id != t):
+                        names.append(n.targets[0].id)
+                        j += 1
+                    else:
+                        break
+                if len(names) >= 2 and uses.get(t, 0) == len(names) and len({n_ for n_ in names if n_ != '_'}) == len([n_ for n_ in names if n_ != '_']):
+                    new = ast.Assign(targets=[ast.Tuple(elts=[ast.Name(id=n_, ctx=ast.Store()) for n_ in names], ctx=ast.Store())], value=s.value)
+                    ast.copy_location(new, s)
+                    ast.fix_missing_locations(new)
+                    out.append(new)
+                    i = j
+                    done += 1
+                    continue
+            out.append(s)
+            i += 1
+        return out
+
+    for t in trees.values():
+        for fn in ast.walk(t):
+            if isinstance(fn, ast.FunctionDef):
+                uses = {}
+                for x in ast.walk(fn):
+                    if isinstance(x, ast.Name) and isinstance(x.ctx, ast.Load):
+                        uses[x.id] = uses.get(x.id, 0) + 1
+                fn.body = fold(fn.body, uses)
+    return done
